@@ -25,24 +25,28 @@ theorem detect_sound (s : State) (h : Synced s) : report s = quietReport s := re
 
 /-- A font that has just been opened is in step with its UFO (nothing is loaded, the listings are
 the ones just read). -/
-theorem synced_open (zip : Bool) (d : Disk) (empty : Blob) (hn : (layerNames d).Nodup) :
-    Synced (openFont zip d empty) := synced_openFont zip d empty hn
+theorem synced_open (zip : Bool) (d : Disk) (empty : Blob) (hn : (layerNames d).Nodup)
+    (hi : (AL.keys d.images).Nodup) (hd : (AL.keys d.data).Nodup) :
+    Synced (openFont zip d empty) := synced_openFont zip d empty hn hi hd
 
 /-- Every quiet operation keeps the font in step with its UFO: lazy reads of top-level objects,
 glyphs, images and data; edits of their values; deletion of glyphs, images and data (scheduled for
 deletion, with a stamp of the file scheduled); touch-only external edits of any stamped file (new
 modification time, same bytes); the test itself (which re-binds the layers and replaces the font's
-reader); reloading a top-level object. -/
+reader); reloading a top-level object; save-as to a new path (the font is then in step with the UFO
+it wrote, which is the UFO from then on). -/
 theorem synced_step (s : State) (h : Synced s) (op : Op) (hq : Quiet op) : Synced (step s op).1 :=
   synced_step_aux h op hq
 
-/-- SOUND (histories).  For every UFO, package or zip, and every interleaving of quiet operations —
-in-memory edits, lazy reads, deletions, touch-only external edits, tests — the next test reports
-nothing.  This is the proved part of `DetectSound` below. -/
-theorem detect_sound_partial (zip : Bool) (d : Disk) (empty : Blob) (hn : (layerNames d).Nodup) (ops : List Op)
+/-- SOUND (histories).  For every UFO (layer names, image names and data paths unique), package or
+zip, and every interleaving of quiet operations — in-memory edits, lazy reads, deletions, touch-only
+external edits, tests, save-as — the next test reports nothing.  This is the proved part of
+`DetectSound` below. -/
+theorem detect_sound_partial (zip : Bool) (d : Disk) (empty : Blob) (hn : (layerNames d).Nodup)
+    (hi : (AL.keys d.images).Nodup) (hd : (AL.keys d.data).Nodup) (ops : List Op)
     (hq : ∀ op ∈ ops, Quiet op) :
     report (run (openFont zip d empty) ops) = quietReport (run (openFont zip d empty) ops) :=
-  report_quiet (synced_run_aux (synced_openFont zip d empty hn) ops hq)
+  report_quiet (synced_run_aux (synced_openFont zip d empty hn hi hd) ops hq)
 
 /-- operations that change no byte on disk: the quiet ones and the structural in-memory edits
 (creating a glyph or a layer, deleting or reordering layers, changing the default layer) -/
@@ -53,7 +57,8 @@ def ByteQuiet : Op → Prop
 /-- The full soundness statement of the property: nothing is reported as long as no byte changes
 on disk, *whatever has been edited in memory*.  The code does not satisfy it (finding F8). -/
 def DetectSound : Prop :=
-  ∀ (zip : Bool) (d : Disk) (empty : Blob) (ops : List Op), (layerNames d).Nodup → (∀ op ∈ ops, ByteQuiet op) →
+  ∀ (zip : Bool) (d : Disk) (empty : Blob) (ops : List Op), (layerNames d).Nodup → (AL.keys d.images).Nodup →
+    (AL.keys d.data).Nodup → (∀ op ∈ ops, ByteQuiet op) →
     report (run (openFont zip d empty) ops) = quietReport (run (openFont zip d empty) ops)
 
 /-- a UFO with two layers, one glyph -/
@@ -90,7 +95,7 @@ theorem f8_memory_replaced_layer_violated :
 /-- The full statement fails: the witness of F8.1 (no byte changed, yet an entry is reported). -/
 theorem detect_sound_violated : ¬ DetectSound := by
   intro h
-  have := h false demoDisk 9 [.gnew "fore" "new"] (by decide)
+  have := h false demoDisk 9 [.gnew "fore" "new"] (by decide) (by decide) (by decide)
     (by intro op hop; simp at hop; subst hop; trivial)
   revert this
   decide
@@ -265,6 +270,32 @@ theorem reload_file_converges (s : State) (img : Bool) (n : String) (f : File)
   obtain ⟨s', h1, h2, h3⟩ := reloadFile_spec img hz hf
   exact ⟨s', h1, h2, h3, by rw [h2]; exact isModifiedFile_of_stamp hf⟩
 
+/-! ## 4b. Save-as -/
+
+/-- SAVE-AS, in step.  A save-as (to a path where nothing exists) from a font in step with its UFO
+leaves the font in step with the UFO it wrote: every top-level object, every glyph, every loaded
+image and data file is stamped with what was written, the listings are what was written; so a test
+right after it reports nothing, and so does every test after any further quiet history. -/
+theorem saveas_resyncs (s s' : State) (h : Synced s) (tD tS : Time) (hr : saveAs s tD tS = .ok s') :
+    Synced s' ∧ report s' = quietReport s' :=
+  ⟨synced_saveAs h hr, report_quiet (synced_saveAs h hr)⟩
+
+/-- SAVE-AS, pending deletions.  After a save-as (from any state) nothing is scheduled for deletion
+any more — no glyph in any layer, no image, no data file: the deleted things were simply not
+written to the new UFO, nothing is left to delete there. -/
+theorem saveas_drops_schedules (s s' : State) (tD tS : Time) (hr : saveAs s tD tS = .ok s') :
+    (∀ ln l, getLayer s' ln = some l → l.sched = []) ∧ s'.font.images.sched = [] ∧ s'.font.data.sched = [] :=
+  saveAs_sched hr
+
+/-- SAVE-AS, completeness.  Hence a glyph that another program later puts into the new UFO under a
+name the layer does not hold is reported as added whatever its bytes and modification time — also
+when it is, byte for byte, a glyph the font had deleted before the save-as. -/
+theorem saveas_then_added_is_reported (s s' : State) (tD tS : Time) (hr : saveAs s tD tS = .ok s')
+    (d' : Disk) (ln gn : String) (l : MLayer) (hl : getLayer s' ln = some l)
+    (hon : gn ∈ glifNames d' ln) (hk : gn ∉ l.keys) : gn ∈ layerAdded d' ln l := by
+  have hs := (saveAs_sched hr).1 ln l hl
+  exact (mem_layerAdded_iff d' ln l gn).2 ⟨hon, hk, Or.inl (by rw [hs]; rfl)⟩
+
 /-! ## 5. The font stays usable after a test -/
 
 /-- USABLE (F6 fix).  After `testForExternalChanges` every layer of the font that is on disk is bound
@@ -297,7 +328,7 @@ def demo : State := run (openFont false demoDisk 9)
    .xpart .info .touch (some 4), .xglyph "fore" "A" .touch (some 5), .test]
 
 example : Synced demo :=
-  synced_run_aux (synced_openFont false demoDisk 9 (by decide)) _ (by
+  synced_run_aux (synced_openFont false demoDisk 9 (by decide) (by decide) (by decide)) _ (by
     intro op hop
     simp only [List.mem_cons, List.mem_nil_iff, or_false] at hop
     rcases hop with h | h | h | h | h | h | h | h | h <;> subst h <;> trivial)
@@ -322,6 +353,17 @@ example : ((step (run demo [.xglyph "back" "B" (.write 13) (some 9), .test]) (.g
 /-- the hypotheses of `reload_part_resyncs` / `usable_save` are met by concrete states -/
 example : xPart demo.zip demo.disk .info (.write 11) (some 6) ≠ none := by decide
 example : (save demo 100 101 matches .ok _) = true := by decide
+/-- save-as: a glyph deleted in memory, save-as, the same bytes (5) put back by another program with a
+new time: reported as added; after reload and a second test nothing is left, and it is in step -/
+def demoSaveAs : State := run (openFont false demoDisk 9) [.gget "fore" "A", .gdel "fore" "A", .fset true "i.png" none,
+  .saveas 50 51]
+example : (saveAs (run (openFont false demoDisk 9) [.gget "fore" "A", .gdel "fore" "A"]) 50 51 matches .ok _) = true := by
+  decide
+example : report demoSaveAs = quietReport demoSaveAs := by decide
+example : (report (step demoSaveAs (.xglyph "fore" "A" (.write 5) (some 3))).1).modified =
+    [("fore", { info := false, modified := [], added := ["A"], deleted := [] })] ∧
+    (report (run demoSaveAs [.xglyph "fore" "A" (.write 5) (some 3), .test, .reload])).modified = [] := by decide
+example : (report (step demoSaveAs (.xfile true "i.png" (.write 7) (some 4))).1).images.added = ["i.png"] := by decide
 example : Bound (test demo).1 "fore" := usable_after_test demo "fore" _ (by decide) (by decide) rfl
 
 end DefconModel.Props.C05
